@@ -253,20 +253,39 @@ func spResolveRoles(c *Ctx) *spRoles {
 			continue
 		}
 		var cur, prev *types.Var
+		// the shift current→previous, in the method itself or in a parser method it
+		// calls (`self.shift(tok)`), as single or parallel assignment
+		bodies := []*ast.BlockStmt{fd.Body}
 		ast.Inspect(fd.Body, func(n ast.Node) bool {
-			as, ok := n.(*ast.AssignStmt)
-			if !ok || len(as.Lhs) != 1 || len(as.Rhs) != 1 {
-				return true
-			}
-			lf := spFieldOf(r.info, as.Lhs[0])
-			if lf == nil || (lf != tokFields[0] && lf != tokFields[1]) {
-				return true
-			}
-			if rf := spFieldOf(r.info, as.Rhs[0]); rf != nil && (rf == tokFields[0] || rf == tokFields[1]) {
-				prev, cur = lf, rf
+			if call, ok := n.(*ast.CallExpr); ok {
+				if cf := CalleeOf(r.info, call); cf != nil && cf != fn {
+					if cfd := r.decls[cf]; cfd != nil {
+						if csig := cf.Type().(*types.Signature); csig.Recv() != nil && recvNamed(csig.Recv().Type()) == r.parserT {
+							bodies = append(bodies, cfd.Body)
+						}
+					}
+				}
 			}
 			return true
 		})
+		for _, body := range bodies {
+			ast.Inspect(body, func(n ast.Node) bool {
+				as, ok := n.(*ast.AssignStmt)
+				if !ok || len(as.Lhs) != len(as.Rhs) {
+					return true
+				}
+				for i := range as.Lhs {
+					lf := spFieldOf(r.info, as.Lhs[i])
+					if lf == nil || (lf != tokFields[0] && lf != tokFields[1]) {
+						continue
+					}
+					if rf := spFieldOf(r.info, as.Rhs[i]); rf != nil && rf != lf && (rf == tokFields[0] || rf == tokFields[1]) {
+						prev, cur = lf, rf
+					}
+				}
+				return true
+			})
+		}
 		if cur != nil && prev != nil && cur != prev {
 			if r.next != nil {
 				fatalf("anchor ambiguous: two token-advancing methods (%s, %s)", r.next.Name(), fn.Name())
